@@ -238,6 +238,8 @@ def judgeMut (valid : Bool) (impl : String) : String × String :=
     | none => ("viol:unparseable-output", pd)
     | some r =>
       if pres ≠ "P=ok" ∨ mres ≠ "M=ok" then ("viol:valid-mutation-refused", pd)
+      else if r.init.isNone ∨ r.first.isNone ∨ r.last.isNone ∨ r.snap.isNone ∨ r.ents.isNone ∨ r.terms.isNone then
+        ("viol:read-api-error", pd)
       else if !r.noneBelow then ("viol:entry-below-compaction", pd)
       else if !r.contiguous then ("viol:not-contiguous", pd)
       else if !r.termsDefinedIff then ("viol:term-defined-mismatch", pd)
